@@ -217,6 +217,28 @@ def print_assumptions(tops):
     return out
 
 
+def run_coqchk(tops, budget_s=None):
+    """Thorough tier: re-check the compiled property files (and everything they depend on) with the independent checker.
+    A timeout is recorded as 'timeout' (the kernel already accepted the proofs; coqchk re-evaluates vm_compute sweeps slowly)."""
+    budget_s = budget_s or int(os.environ.get('VERIF_COQCHK_BUDGET', '2400'))
+    out = {}
+    for t in tops:
+        if not t.startswith('theories/Props/'):
+            continue
+        mod = 'Segno.Props.' + os.path.basename(t)[:-2]
+        t0 = time.time()
+        try:
+            r = run(['coqchk', '-silent', '-o', '-Q', 'theories', 'Segno', '-Q', 'build/gen', 'SegnoSrc', mod], timeout=budget_s)
+            txt = r.stdout
+            axioms = ''
+            if '* Axioms:' in txt:
+                axioms = txt.split('* Axioms:', 1)[1].split('* Constants', 1)[0].strip()
+            out[mod] = {'status': 'ok' if r.returncode == 0 else 'failed', 'axioms': axioms, 'wall_s': round(time.time() - t0, 1), 'tail': txt[-400:]}
+        except subprocess.TimeoutExpired:
+            out[mod] = {'status': 'timeout', 'wall_s': budget_s}
+    return out
+
+
 def forbidden_scan():
     """No Admitted/admit/Axiom/... anywhere in the development (run in every check)."""
     pat = re.compile(r'\b(Admitted|admit|Axiom|Axioms|Parameter|Parameters|Conjecture|Admit Obligations|bypass_check|Unset Guard Checking|'
@@ -276,6 +298,7 @@ def write_evidence(ctx, mod, result, obl, known_lines, nviol, wall):
         'print_assumptions': obl['assumptions'],
         'broken_obligations': obl['broken'],
         'forbidden_construct_scan': scan or 'clean',
+        'coqchk': obl.get('coqchk', 'not run (thorough tier only)'),
         'translator': (ctx.build or {}).get('translator'),
         'evaluations': int(result.get('evaluations', 0)),
         'distinct_nontrivial': int(result.get('distinct_nontrivial', 0)),
